@@ -266,8 +266,8 @@ def record_pipeline(b, world, intended, *, inner_fraction, ms=(0,), ks=(), radiu
 
 def traj_split_record(b, traj, k, equal):
     """Trajectory.split: find the frame ranges of the parts in the source (witness) by matching positions."""
+    parts = traj.split(k, equal_parts=equal)       # first: the source is split in whatever internal representation it is in
     src = np.array(traj.positions)
-    parts = traj.split(k, equal_parts=equal)
     ranges = []
     lo = 0
     for p in parts:
